@@ -30,6 +30,7 @@ fn run_prop(id: &str, tier: Tier) -> Option<Report> {
         "C15" => props::c15::run(tier),
         "C12" => props::c12::run(tier),
         "C07" => props::c07::run(tier),
+        "C13" => props::c13::run(tier),
         _ => return None,
     })
 }
@@ -37,6 +38,7 @@ fn run_prop(id: &str, tier: Tier) -> Option<Report> {
 fn staged_of(id: &str, tier: Tier) -> Option<explore::Staged> {
     Some(match id {
         "C07" => props::c07::staged(tier),
+        "C13" => props::c13::staged(tier),
         _ => return None,
     })
 }
@@ -59,6 +61,7 @@ fn replay_case(case: &Value) -> Option<(bool, String)> {
         "c15res" | "c15rgb" | "c15content" | "c15contentrgb" => props::c15::replay(case),
         "c12" | "c12float" => props::c12::replay(case),
         "c07geom" | "c07enc" | "c07curve" | "c07special" => props::c07::replay(case),
+        "c13cube" | "c13strat" | "c13stratcase" | "c13unit" => props::c13::replay(case),
         _ => return None,
     })
 }
